@@ -854,8 +854,17 @@ pub fn build7(tape: &[u16]) -> Built7 {
             .collect();
         src.push_str(&format!("LIST {ln} = {}\n", its.join(", ")));
     }
+    // As in inklecate, a VAR initial value is a constant (number, string, list literal, name);
+    // anything else (e.g. `LA(0)`) is assigned by the first statements of the story.
+    let mut late_init = String::new();
     for (n, text, _) in &g.d.vars {
-        src.push_str(&format!("VAR {n} = {text}\n"));
+        let constant = !text.contains('(') || text.starts_with('(');
+        if constant {
+            src.push_str(&format!("VAR {n} = {text}\n"));
+        } else {
+            src.push_str(&format!("VAR {n} = 0\n"));
+            late_init.push_str(&format!("~ {n} = {text}\n"));
+        }
     }
     let ne = 8 + g.t.pick(13);
     for i in 0..ne {
@@ -865,7 +874,7 @@ pub fn build7(tape: &[u16]) -> Built7 {
     let mut lines = vec![];
     let mut outs = vec![];
     let mut choices = 0;
-    let mut body = String::new();
+    let mut body = late_init;
     let mut i = 0;
     let mut attempts = 0;
     while i < ne && attempts < 200 {
